@@ -1168,6 +1168,8 @@ func (is *indexSearch) searchTSIDsWithTagFilter(tf *tagFilter) (*uint64set.Set, 
 		us.A = sids
 		this := &uint64set.Set{}
 		this.AddMulti(sids)
+		// the cached ids may have been dropped since they were cached
+		this.Subtract(is.deleted)
 		return this, -1, nil
 	}
 
@@ -1330,6 +1332,8 @@ func (is *indexSearch) updateTSIDsByOrSuffixes(tf *tagFilter) (*uint64set.Set, e
 			return tsids, err
 		}
 	}
+	// like the slow scan, never hand out ids of dropped series
+	tsids.Subtract(is.deleted)
 	return tsids, nil
 }
 
@@ -1567,6 +1571,7 @@ func (is *indexSearch) getSeriesCount(prefix []byte) (uint64, error) {
 	mp := &is.mp
 	ts.Seek(prefix)
 	var seriesCount uint64
+	deleted := is.idx.GetDeletedTSIDs()
 	for ts.NextItem() {
 		item := ts.Item
 		if !bytes.HasPrefix(item, prefix) {
@@ -1582,7 +1587,17 @@ func (is *indexSearch) getSeriesCount(prefix []byte) (uint64, error) {
 		if err := mp.InitOnlyTail(item, tail); err != nil {
 			return 0, err
 		}
-		seriesCount += uint64(mp.TSIDsLen())
+		if deleted.Len() == 0 {
+			seriesCount += uint64(mp.TSIDsLen())
+			continue
+		}
+		// dropped series are still in the index rows: do not count them
+		mp.ParseTSIDs()
+		for _, tsid := range mp.TSIDs {
+			if !deleted.Has(tsid) {
+				seriesCount++
+			}
+		}
 	}
 	return seriesCount, nil
 }
